@@ -202,6 +202,10 @@ func analyseCollector(fn *ssa.Function) *collector {
 				if an.ResolveOnPath(rv.Call.Args[0], p) != ssa.Value(acc) && rv.Call.Args[0] != ssa.Value(acc) {
 					bad("the result joins %s, not the collected list", an.Render(rv.Call.Args[0]))
 				}
+				// a direct bytes.Join must use the field delimiter (joinBody's own separator is checked where it is defined)
+				if strings.HasPrefix(r, "bytes.Join(") && (len(rv.Call.Args) != 2 || an.Render(rv.Call.Args[1]) != "Delimiter") {
+					bad("the collected parts are joined with %s, not with the field delimiter", an.Render(rv.Call.Args[len(rv.Call.Args)-1]))
+				}
 			}
 		default:
 			bad("unexpected result %s", r)
@@ -312,7 +316,8 @@ func checkLeafProducers(c *core.Ctx, rule string) {
 			strings.Join(append(bad, fmt.Sprintf("(%d emitting paths)", nEmit)), "; "))
 	}
 	// joinBody joins with the delimiter
-	if fn := c.Func("fix", "joinBody"); c.Anchor("joinBody", fn != nil, "fix.joinBody", posOf(fn)) {
+	// (where the helper exists; collectors that call bytes.Join themselves are checked for the separator above)
+	if fn := c.Func("fix", "joinBody"); fn != nil {
 		ps, _ := an.EnumPaths(fn, 4)
 		ok := len(ps) == 1 && len(ps[0].Results) == 1 && ps[0].Results[0] == "bytes.Join(values, Delimiter)"
 		c.Check(ok, rule, "joinBody", "joins with the delimiter", fn.Pos(), "bytes.Join(values, Delimiter)", "joinBody is not bytes.Join(values, Delimiter)")
